@@ -18,6 +18,8 @@ COLLECTIONS = ["recording_set", "dataset", "annotation_set", "annotation_project
                "evaluation_set", "prediction_set", "model_run", "evaluation"]
 
 TERM_LABELS = ["species", "call_type", "quality", "sex", "behaviour", "antenna", "event", "habitat"]
+# pairs whose "label<sep>value" concatenations coincide although the tags differ (and similar near misses)
+COLLIDING = [("time:12", "30"), ("time", "12:30"), ("a,b", "c"), ("a", "b,c"), ("x|y", "z"), ("x", "y|z"), ("k", ""), ("", "k"), ("p/q", "r"), ("p", "q/r")]
 FEATURE_LABELS = ["snr", "duration", "bandwidth", "peak_freq", "entropy", "loudness", "centroid", "flux"]
 VALUES = ["Myotis myotis", "social", "good", "", "ünïcödé ✓", "a/b:c", " leading", "x" * 40, "0", "echolocation"]
 STATES = None
@@ -100,6 +102,14 @@ class GraphGen:
     def tag(self, fresh=False):
         def make():
             r = self.rng
+            if r.random() < 0.15:
+                # draw BOTH members of a colliding pair so that they meet in one document
+                i = r.randrange(0, len(COLLIDING), 2)
+                pair = [self.data.Tag(term=self.term(l or "empty"), value=v) for l, v in COLLIDING[i:i + 2]]
+                new = [t for t in pair if not any(t == x for x in self.tags)]
+                if new:
+                    self.tags.extend(new[1:])
+                    return new[0]
             for _ in range(20):
                 t = self.data.Tag(term=self.term(r.choice(TERM_LABELS)), value=r.choice(VALUES))
                 if not any(t == x for x in self.tags):
